@@ -136,7 +136,8 @@ impl ServiceStateActions for NodeService<'_> {
 
         Ok(ServiceInstallCtx {
             args,
-            autostart: options.auto_restart,
+            // the upgrade keeps the setting the service was installed with
+            autostart: self.service_data.auto_restart,
             contents: None,
             environment: options.env_variables,
             label: label.clone(),
